@@ -8,6 +8,9 @@
 //! Property oracles are evaluated on the implementation directly (see `judge`).
 pub mod pair;
 pub mod hs;
+pub mod refpeer;
+pub mod deadline;
+pub mod pcfp;
 use crate::{Args, Rng, Run, hex, unhex};
 use bytes::Bytes;
 use pair::*;
@@ -139,20 +142,20 @@ impl Sess {
     fn genuine_src_key(&self) -> (Vec<u8>, Vec<u8>) { read_dir(&self.keys, self.target_is_client) }
 }
 
-pub struct Obs { pub letter: char, pub alive: bool, pub delivered: Vec<Vec<u8>>, pub sent: Vec<Vec<u8>> }
+pub struct Obs { pub letter: char, pub state: String, pub alive: bool, pub delivered: Vec<Vec<u8>>, pub sent: Vec<Vec<u8>> }
 
 fn descr(dg: &[u8]) -> Vec<String> {
     parse_records(dg).iter().map(|r| {
         if r.ctype == 23 || r.ctype == 21 {
-            if r.epoch > 0 { format!("{}.{}.{}.{}", r.ctype, r.epoch, r.seq, r.body.len() as i64 - 24) }
+            if r.epoch > 0 { format!("{}.{}.{}.{}{}", r.ctype, r.epoch, r.seq, r.body.len() as i64 - 24, nonce_tag(r)) }
             else { format!("{}.{}.{}.{}", r.ctype, r.epoch, r.seq, r.body.len()) }
-        } else { format!("{}.{}.{}", r.ctype, r.epoch, r.seq) }
+        } else { format!("{}.{}.{}{}", r.ctype, r.epoch, r.seq, nonce_tag(r)) }
     }).collect()
 }
 
 fn obs_text(o: &Obs) -> String {
     let j = |v: Vec<String>| if v.is_empty() { "-".to_string() } else { v.join("+") };
-    format!("{},{},{},{}", o.letter, o.alive as u8, j(o.delivered.iter().map(|d| hex(d)).collect()),
+    format!("{},{},{},{}", o.state, o.alive as u8, j(o.delivered.iter().map(|d| hex(d)).collect()),
         j(o.sent.iter().flat_map(|d| descr(d)).collect()))
 }
 
@@ -265,6 +268,7 @@ pub async fn run_session(target_is_client: bool, script: &[(Inj, bool)]) -> Opti
     let mut tags = vec![];
     let mut sent_nonces: BTreeSet<(u16, u64)> = BTreeSet::new();
     sent_nonces.insert((1, 0)); // the Finished record of the handshake
+    sent_nonces.insert((0xffff, 1 << 48)); // … and its explicit nonce
     for (inj, from_third) in script {
         let before = target.letter();
         let obs = match inj {
@@ -275,14 +279,14 @@ pub async fn run_session(target_is_client: bool, script: &[(Inj, bool)]) -> Opti
                 input.push_str(&format!(" sd,{}", hex(&data)));
                 if accepted { judge_sent(&sent, &data, &sess, &mut sent_nonces, &mut fails, &inj.text()); }
                 else if !sent.is_empty() { fails.push(("send:records-emitted-by-rejected-send".into(), inj.text())); }
-                Obs { letter: target.letter(), alive: !target.done, delivered: target.drain_app(), sent }
+                Obs { letter: target.letter(), state: target.state_text(), alive: !target.done, delivered: target.drain_app(), sent }
             }
             Inj::Close => {
                 target.dtls.close();
                 let sent = target.pump().await;
                 input.push_str(" cl");
                 judge_sent(&sent, &[], &sess, &mut sent_nonces, &mut fails, "cl");
-                Obs { letter: target.letter(), alive: !target.done, delivered: target.drain_app(), sent }
+                Obs { letter: target.letter(), state: target.state_text(), alive: !target.done, delivered: target.drain_app(), sent }
             }
             _ => {
                 let dg = materialise(inj, &sess, &mut peer).await;
@@ -305,9 +309,10 @@ pub async fn run_session(target_is_client: bool, script: &[(Inj, bool)]) -> Opti
                 }
                 tags.push(format!("inj:{}:{}", cls, if auth.is_empty() { "unauth" } else { "auth" }));
                 if *from_third { tags.push("src:third-party".into()); } else { tags.push("src:genuine".into()); }
-                Obs { letter: after, alive: !target.done, delivered, sent }
+                Obs { letter: after, state: target.state_text(), alive: !target.done, delivered, sent }
             }
         };
+        if obs.state.contains('!') { fails.push((format!("state:watch-channel-differs-from-state:{}", obs.state), inj.text())); }
         out.push(obs_text(&obs));
     }
     Some((input, out.join(" "), fails, tags))
@@ -322,6 +327,12 @@ fn judge_sent(sent: &[Vec<u8>], data: &[u8], s: &Sess, nonces: &mut BTreeSet<(u1
         for r in parse_records(dg) {
             if r.epoch == 0 { fails.push((format!("clear:epoch0-record-type-{}-after-connect", r.ctype), what.into())); continue; }
             if !nonces.insert((r.epoch, r.seq)) { fails.push((format!("nonce:reused:type-{}", r.ctype), format!("{what} epoch={} seq={}", r.epoch, r.seq))); }
+            // the AEAD nonce is iv ‖ the 8 explicit bytes on the wire — that is what must never repeat
+            if r.body.len() >= 8 {
+                let wire = u64::from_be_bytes(r.body[..8].try_into().unwrap());
+                if !nonces.insert((0xffff, wire)) { fails.push((format!("nonce:explicit-nonce-reused:type-{}", r.ctype), format!("{what} explicit={wire:016x}"))); }
+                if wire != (((r.epoch as u64) << 48) | r.seq) { fails.push((format!("nonce:explicit-nonce-not-epoch-seq:type-{}", r.ctype), format!("{what} explicit={wire:016x} header={}.{}", r.epoch, r.seq))); }
+            }
             match open_rec(&k, &iv, &r).2 {
                 None => fails.push(("seal:record-does-not-open-under-write-key".into(), what.into())),
                 Some(p) => { if p.len() > 1200 { fails.push(("size:record-exceeds-limit".into(), what.into())); }
@@ -476,17 +487,23 @@ fn conc_case(run: &mut Run, tasks: usize, sends: usize, big: bool, close: bool) 
             got
         });
         let mut hs = vec![];
+        let progress = std::sync::Arc::new(std::sync::atomic::AtomicUsize::new(0));
         let mut expected_records = 0usize;
         for t in 0..tasks {
             let d = pair.c.dtls.clone();
             let len = if big && t % 2 == 0 { 2500 } else { 40 + t };
             expected_records += sends * ((len + 1199) / 1200);
+            let prog = progress.clone();
             hs.push(tokio::spawn(async move {
-                for i in 0..sends { let _ = d.send(Bytes::from(vec![(t + i) as u8; len])).await; if i % 4 == 3 { tokio::task::yield_now().await; } }
+                for i in 0..sends { let _ = d.send(Bytes::from(vec![(t + i) as u8; len])).await;
+                    prog.fetch_add(1, std::sync::atomic::Ordering::SeqCst); tokio::task::yield_now().await; }
             }));
         }
-        for h in hs { let _ = h.await; }
+        // let the senders get going: close() must race them, not precede them
+        if close && tasks > 1 { while progress.load(std::sync::atomic::Ordering::SeqCst) < (tasks * sends) / 3 { tokio::task::yield_now().await; } }
+        // close() while the senders are still running: the alert allocates its sequence number concurrently
         if close { pair.c.dtls.close(); pair.c.poll_quiesce().await; }
+        for h in hs { let _ = h.await; }
         tokio::time::sleep(std::time::Duration::from_millis(50)).await;
         stop.store(true, std::sync::atomic::Ordering::SeqCst);
         let got = drainer.join().unwrap();
@@ -499,17 +516,27 @@ fn conc_case(run: &mut Run, tasks: usize, sends: usize, big: bool, close: bool) 
     let mut alert: Option<(u16, u64)> = None;
     let mut seen = BTreeSet::new();
     seen.insert((1u16, 0u64));
+    seen.insert((0xffff, 1 << 48));
     for dg in &got { for r in parse_records(dg) {
         if !seen.insert((r.epoch, r.seq)) { run.fail(&format!("nonce:reused:type-{}", r.ctype), &text, &format!("epoch={} seq={}", r.epoch, r.seq)); }
+        if r.body.len() >= 8 {
+            let wire = u64::from_be_bytes(r.body[..8].try_into().unwrap());
+            if !seen.insert((0xffff, wire)) { run.fail(&format!("nonce:explicit-nonce-reused:type-{}", r.ctype), &text, &format!("explicit={wire:016x}")); }
+        }
         if open_rec(&k, &iv, &r).2.is_none() { run.fail("seal:record-does-not-open-under-write-key", &text, ""); }
         if r.ctype == 23 { app.push((r.epoch, r.seq)); } else if r.ctype == 21 { alert = Some((r.epoch, r.seq)); }
     } }
     app.sort();
     if app.len() != expected { run.count("conc_datagram_loss_inconclusive"); return; }
-    let lo = app.first().map(|x| x.1).unwrap_or(1); let hi = app.last().map(|x| x.1).unwrap_or(1);
-    let contiguous = app.windows(2).all(|w| w[1].1 == w[0].1 + 1 && w[1].0 == w[0].0);
-    let out = format!("1:{}{} alert={}", if app.is_empty() { "-".to_string() } else { format!("{lo}-{hi}/{}", app.len()) },
-        if contiguous { "" } else { "!gaps" }, match alert { Some((e, s)) => format!("{e}:{s}"), None => "-".into() });
+    // application records and the alert together must occupy one gap-free range (the alert allocates
+    // concurrently with the senders, so it may sit anywhere in it)
+    let mut all = app.clone();
+    if let Some(a) = alert { all.push(a); }
+    all.sort();
+    let lo = all.first().map(|x| x.1).unwrap_or(1); let hi = all.last().map(|x| x.1).unwrap_or(1);
+    let contiguous = all.windows(2).all(|w| w[1].1 == w[0].1 + 1 && w[1].0 == w[0].0);
+    let out = format!("1:{}{} alert={}", if all.is_empty() { "-".to_string() } else { format!("{lo}-{hi}/{}", all.len()) },
+        if contiguous { "" } else { "!gaps" }, alert.is_some() as u8);
     run.case("conc", &format!("1,1,{expected},{}", close as u8), &out, true);
     run.count_n("conc_records", expected as u64);
 }
@@ -577,6 +604,13 @@ pub fn run(args: &Args) {
     let rt = tokio::runtime::Builder::new_current_thread().enable_all().build().unwrap();
     if let Some(case) = &args.replay {
         if let Some(h) = case.strip_prefix("dec ") { println!("impl: {}", impl_dec(&unhex(h.trim()))); return; }
+        if let Some(h) = case.strip_prefix("hs ") {
+            match rt.block_on(super::c02::run_script(&super::c02::Script::parse(h))) {
+                Some(o) => { for (i, l) in o.lines { println!("ops: {i}\nimpl: {l}"); } for (s, d) in o.fails { println!("ORACLE-FAIL {s} {d}"); } }
+                None => println!("inconclusive (timing)"),
+            }
+            return;
+        }
         if let Some(r) = case.strip_prefix("pub ") {
             let f: Vec<&str> = r.split_whitespace().collect();
             println!("impl: {:?}", publication_probe(&rt, f[0] == "c", f[1].parse().unwrap()));
@@ -628,6 +662,33 @@ pub fn run(args: &Args) {
         let script: Vec<(Inj, bool)> = chunk.iter().map(|b| (Inj::Captured { len: 16, mutation: Mut::Flip(*b) }, false)).collect();
         emit_session(&mut run, &rt, rng.chance(1, 2), &script);
     }
+    // (3a) "or during the handshake": clear-text ApplicationData / close_notify / ChangeCipherSpec / Finished records
+    // injected just before each handshake datagram (before keys, between keys and Connected), both directions.
+    // Judged by the recorder's clear-text oracle (`rec:handshake-phase:…`) and replayed on the model (`hs` stream).
+    {
+        use super::c02::{Act, Rule, Script, run_script};
+        let mut scripts = vec![];
+        for (fc, kinds) in [(false, vec![2u8, 11, 12, 14, 200, 20]), (true, vec![16u8, 200, 20])] {
+            for k in kinds { for ct in [23u8, 21, 22, 20] { scripts.push(Script { ce: 'o', se: 'n', rules: vec![Rule { from_client: fc, typ: k, act: Act::PreInject(ct) }] }); } }
+        }
+        for sc in &scripts {
+            for _ in 0..3 {
+                if let Some(o) = rt.block_on(run_script(sc)) {
+                    for (i, l) in &o.lines { run.case("hs", i, l, true); }
+                    run.count("handshake_phase_injection_scripts");
+                    for (sig, d) in o.fails { if sig.starts_with("rec:") || sig.starts_with("noconn:") || sig.starts_with("state:") { run.fail(&sig, &format!("hs {d}"), &sc.text()); } }
+                    // a discarded record is as good as absent: the handshake around it must still complete
+                    // (judged where the target already holds keys — before that a clear-text handshake message is legal input)
+                    if matches!(sc.rules[0].typ, 200 | 20) && !o.tags.iter().any(|t| t == "both_connected") {
+                        let fin = o.tags.iter().find(|t| t.starts_with("final:")).cloned().unwrap_or_default();
+                        run.fail(&format!("rec:handshake-phase:clear-text-record-disturbed-the-handshake:{}", sc.rules[0].typ), &format!("hs {}", sc.text()), &fin);
+                    }
+                    break;
+                }
+                run.count("timing_retry");
+            }
+        }
+    }
     // (3b) a sender exactly between the publication statements
     pub_cases(&mut run, &rt, if args.tier_thorough { 10 } else { 2 });
     // (4) record decoder
@@ -637,7 +698,7 @@ pub fn run(args: &Args) {
     let conc: Vec<(usize, usize, bool, bool)> = if args.tier_thorough {
         vec![(1, 1, false, true), (2, 50, false, true), (4, 100, true, true), (8, 100, false, true), (16, 200, false, true), (16, 50, true, false), (3, 7, true, true),
              (16, 200, true, true), (12, 150, false, true), (5, 200, true, true), (9, 33, false, false), (16, 100, false, true), (7, 77, true, true)]
-    } else { vec![(1, 1, false, true), (4, 20, true, true), (8, 25, false, true), (16, 10, false, false)] };
+    } else { vec![(1, 1, false, true), (4, 20, true, true), (8, 60, false, true), (8, 60, false, true), (12, 40, false, true), (16, 10, false, false)] };
     for (t, s, b, c) in conc { conc_case(&mut run, t, s, b, c); }
     run.notes.insert("scope".into(), serde_json::json!("sessions = fresh real DtlsTransport pair, connected through the harness proxy, then injections at one endpoint; oracle table = AES-128-GCM results computed by the harness from RFC nonce/AAD"));
     run.finish();
